@@ -106,6 +106,27 @@ class ndarray(metaclass=_NdMeta):
     def __rtruediv__(self, o):
         return self._bin(o, lambda x, y: y / x)
 
+    def _inplace(self, o, f):
+        # numpy in-place operators write into the array's own buffer (shared with the torch tensor it came from)
+        ov = o.a if isinstance(o, ndarray) else o
+        if isinstance(ov, _np.generic):
+            ov = ov.item()
+        r = f(self.a, ov) if isinstance(ov, _np.ndarray) else f(self.a, _scal(ov))
+        self.a[...] = r
+        return self
+
+    def __itruediv__(self, o):
+        return self._inplace(o, lambda x, y: x / y)
+
+    def __imul__(self, o):
+        return self._inplace(o, lambda x, y: x * y)
+
+    def __iadd__(self, o):
+        return self._inplace(o, lambda x, y: x + y)
+
+    def __isub__(self, o):
+        return self._inplace(o, lambda x, y: x - y)
+
     def __pow__(self, n):
         return self._w(self.a ** n)
 
@@ -189,6 +210,12 @@ class ndarray(metaclass=_NdMeta):
 
     def __repr__(self):
         return 'symndarray(%s)' % (list(self.a.shape),)
+
+
+def _scal(v):
+    b = _np.empty((), dtype=object)
+    b[()] = v
+    return b
 
 
 def ndarray_from_tensor(t):
@@ -322,8 +349,32 @@ def _isscalar(x):
 
 def _max(x, *a, **k):
     if _is_sym(x):
-        unsupported('np.max symbolic')
+        if a or k:
+            unsupported('np.max with arguments')
+        vals = list(x.a.flat)
+        if not vals:
+            raise ValueError('zero-size array to reduction operation maximum which has no identity')
+        best = vals[0]
+        for v in vals[1:]:
+            if v > best:          # symbolic comparison: decided by the explorer
+                best = v
+        return best
     return _np.max(x, *a, **k)
+
+
+def _min(x, *a, **k):
+    if _is_sym(x):
+        if a or k:
+            unsupported('np.min with arguments')
+        vals = list(x.a.flat)
+        if not vals:
+            raise ValueError('zero-size array to reduction operation minimum which has no identity')
+        best = vals[0]
+        for v in vals[1:]:
+            if v < best:
+                best = v
+        return best
+    return _np.min(x, *a, **k)
 
 
 def _symbolic_arg(x, depth=0):
@@ -537,4 +588,7 @@ facade.vstack = _vstack
 facade.hstack = _hstack
 facade.iscomplex = lambda x: unsupported('numpy.iscomplex') if _symbolic_arg(x) else _np.iscomplex(x)
 facade.max = _max
+facade.amax = _max
+facade.min = _min
+facade.amin = _min
 facade.__version__ = _np.__version__
